@@ -7,3 +7,11 @@ reg("C18", "property-based testing / fuzzing: exhaustive token strings (32-token
     "Every generated string is pushed through parse, select and probing+activation; the oracle is the list of allowed outcomes of the property (SyntaxError with offset, SelectorError, the documented TypeError; deliberate refusal at activation). Exhaustive below the stated length, sampled beyond. Exploration, not proof.",
     "Trusts the deliberate-vs-accidental classifier (innermost ptera frame fails on a raise statement) and three tolerated classes listed in the evidence assumptions.",
     "DESIGN.md section 5 C18")
+reg("C03", "property-based testing: Hypothesis-generated call plans x chain/sibling selectors, reference model of stack embeddings (model_paths.immediate_events)",
+    "Generated call trees (recursion, indirect calls, caught/uncaught raises, re-entry) are run under generated chain/sibling selectors through probing() and through BaseOverlay+Immediate; the event stream must equal the one a pure-Python model computes from the plan by enumerating embeddings of the chain into the live stack. Exploration over bounded plans/selectors.",
+    "Trusts vlib/model_paths.py (a transcription of the property statement, no ptera imports) and the fixed function family in vlib/family.py.",
+    "DESIGN.md section 5 C03, section 4.2")
+reg("C07", "property-based testing: Hypothesis-generated call plans x focus-free (and forced-total) selector trees, reference model of total records (model_paths.total_records)",
+    "Generated call trees are run under focus-free selectors (probing raw, BaseOverlay+Total, two selectors in one probe) and focused selectors forced to total; records must equal the model's: one per ending outermost activation, all values in order once per embedding, none when a capture is empty.",
+    "Trusts vlib/model_paths.py; multiplicity per embedding is the documented-by-behaviour reading (DESIGN section 6.2).",
+    "DESIGN.md section 5 C07, section 4.2")
